@@ -124,25 +124,36 @@ Section Tree.
   (* what a fitting value is encoded as, as a writer value *)
   Inductive enc_shape (fmt : option str) : value -> Prop :=
   | es_leaf t p : leaf_ok t fmt p = true -> enc_shape fmt (VP p)
-  | es_tokens t tf l : forallb (token_ok t fmt) l = true -> enc_shape fmt (VList tf l).
+  | es_tokens t tf l : forallb (token_ok t fmt) l = true -> enc_shape fmt (VList tf l)
+  | es_qname q : enc_shape fmt (VP (PQName q)).
+
+  (* a plain leaf is not a QName *)
+  Lemma leaf_not_qname t fmt q : leaf_ok t fmt (PQName q) = false.
+  Proof. unfold Fits.leaf_ok. cbn [ptext plain_text]. apply andb_false_r. Qed.
+
+  Lemma e_atoms_leaf t fmt p : leaf_ok t fmt p = true -> e_atoms fmt (VP p) = [AText (leaf_text c u fmt p)].
+  Proof. intros H. destruct p; try reflexivity. rewrite leaf_not_qname in H. discriminate H. Qed.
 
   Lemma of_wval_enc fmt x : enc_shape fmt x ->
     of_wval c (enc fmt x) = match x with
+                            | VP (PQName q) => VAtom (AQName (Bind.split_qname q))
                             | VP p => VAtom (AText (leaf_text c u fmt p))
                             | VList _ l => XmlNs.VList (map (fun y => AText (x_text fmt y)) l)
                             | _ => XmlNs.VNone
                             end.
   Proof.
-    intros [t p Hp|t tf l Hl].
-    - cbn [enc]. rewrite (enc_leaf c u ok t fmt p Hp). reflexivity.
+    intros [t p Hp|t tf l Hl|q].
+    - cbn [enc]. rewrite (enc_leaf c u ok t fmt p Hp). destruct p; try reflexivity.
+      rewrite leaf_not_qname in Hp. discriminate Hp.
     - rewrite (enc_tokens c u ok pyspace t fmt tf l Hl). apply of_wval_tokens.
+    - reflexivity.
   Qed.
 
   Lemma atoms_enc fmt x : enc_shape fmt x ->
     atoms_of_value (of_wval c (enc fmt x)) = match e_atoms fmt x with [] => None | l => Some l end.
   Proof.
-    intros H. rewrite (of_wval_enc fmt x H). destruct H as [t p Hp|t tf l Hl]; [reflexivity|].
-    cbn [RoundtripGen.e_atoms]. destruct l; reflexivity.
+    intros H. rewrite (of_wval_enc fmt x H). destruct H as [t p Hp|t tf l Hl|q]; [|cbn [RoundtripGen.e_atoms]; destruct l; reflexivity|reflexivity].
+    rewrite (e_atoms_leaf t fmt p Hp). destruct p; try reflexivity. rewrite leaf_not_qname in Hp. discriminate Hp.
   Qed.
 
   Lemma den_data fmt x : enc_shape fmt x -> den (BData (enc fmt x)) = e_data fmt x.
@@ -173,9 +184,11 @@ Section Tree.
       rewrite E, str_eqb_refl, orb_true_r in Hr. discriminate. }
     pose proof (atoms_enc fmt x Hsh) as Ha. pose proof (of_wval_enc fmt x Hsh) as Ho.
     split; [reflexivity|].
-    destruct Hsh as [t p Hp|t tf l Hl]; rewrite Ho in *.
-    - split; [|reflexivity]. unfold attr_atoms. rewrite Hnt. cbn [andb]. reflexivity.
+    destruct Hsh as [t p Hp|t tf l Hl|q0]; rewrite Ho in *.
+    - rewrite (e_atoms_leaf t fmt p Hp) in *. destruct p; try (split; [|reflexivity]; unfold attr_atoms; rewrite Hnt; cbn [andb]; reflexivity).
+      rewrite leaf_not_qname in Hp. discriminate Hp.
     - cbn [RoundtripGen.e_atoms] in *. destruct l as [|y l]; [exfalso; apply Hne; reflexivity|]. split; reflexivity.
+    - cbn [RoundtripGen.e_atoms]. split; reflexivity.
   Qed.
 
   Lemma attr_rel_field var x :
@@ -193,7 +206,7 @@ Section Tree.
       - destruct x as [| |tt l| | | |]; try discriminate. apply andb_true_iff in Hf as [_ Hf].
         split; [eapply es_tokens; exact Hf|]. destruct l; [discriminate Hne|]. discriminate.
       - destruct x as [|p| | | | |]; try discriminate; [congruence|].
-        split; [eapply es_leaf; exact Hf|]. discriminate. }
+        split; [eapply es_leaf; exact Hf|]. rewrite (e_atoms_leaf _ _ _ Hf). discriminate. }
     destruct x as [|p|tt l|cl fs|q0 tx tl at0 ch|q0 v0 ty|mm]; [constructor| | | | | |].
     all: destruct (is_array _ && negb (py_truthy _)) eqn:Ene; [constructor|].
     all: destruct (ign && opt_skip var _); [constructor|].
@@ -282,7 +295,7 @@ Section Tree.
           pose proof (Hfe _ var Hine (or_introl eq_refl)) as Hfv0.
           assert (Hkt : v_is KText var = false) by (destruct Hk as [_ [Hkt _]]; exact Hkt).
           unfold g_items, e_items. rewrite Hkt.
-          destruct Hty as [[k [Htys [Hcl Htf]]]|[t [Htys [Hst Hcl]]]].
+          destruct Hty as [[k [Htys [Hcl Htf]]]|Hty2].
           + rewrite Htf.
             assert (Hobj : forall y, fits_item c u ok (fits n) var y = true ->
                       den (g_item c u (gobj n) var y) = [e_item c u (eobj n) var y]
@@ -310,13 +323,22 @@ Section Tree.
           + assert (Hit : forall y, fits_item c u ok (fits n) var y = true ->
                       g_item c u (gobj n) var y = g_prim c u var y /\ e_item c u (eobj n) var y = e_prim c u var y
                       /\ enc_shape (v_format var) y).
-            { intros y Hfy. destruct (fits_item_simple c u ok _ var t y Htys Hst Hfy) as [p [-> Hp]].
-              repeat split. eapply es_leaf; exact Hp. }
+            { intros y Hfy. destruct Hty2 as [[t' [Htys' [Hst _]]]|[Htys' _]].
+              - destruct (fits_item_simple c u ok _ var t' y Htys' Hst Hfy) as [p [-> Hp]].
+                repeat split. eapply es_leaf; exact Hp.
+              - destruct (fits_item_qname c u ok _ var y Htys' Hfy) as [q1 [-> _]]. repeat split. apply es_qname. }
+            assert (Hitp : forall y, fits_item c u ok (fits n) var y = true -> exists p, y = VP p).
+            { intros y Hfy. destruct Hty2 as [[t' [Htys' [Hst _]]]|[Htys' _]].
+              - destruct (fits_item_simple c u ok _ var t' y Htys' Hst Hfy) as [p [-> _]]. eexists; reflexivity.
+              - destruct (fits_item_qname c u ok _ var y Htys' Hfy) as [q1 [-> _]]. eexists; reflexivity. }
+            assert (Htt : exists t, v_types var = [t])
+              by (destruct Hty2 as [[t [H1 _]]|[H1 _]]; eexists; eassumption).
+            destruct Htt as [t Htys].
             destruct Hsrc as [Hw|[f0 [t0 [l0 [Hf0 [Htf0 [_ [El Hil]]]]]]]]; cbn [fst snd] in *.
             2:{ rewrite El in Hfv0. unfold Fits.fits_elem in Hfv0. rewrite Hf0, Htf0 in Hfv0.
                 apply andb_true_iff in Hfv0 as [_ Hfl]. rewrite forallb_forall in Hfl. specialize (Hfl x Hil).
-                destruct (fits_item_simple c u ok _ var t x Htys Hst Hfl) as [p [Ex Hp]]. subst x. rewrite Htf0.
-                apply (Hpr (VP p)). eapply es_leaf; exact Hp. }
+                destruct (Hit x Hfl) as [_ [_ Hshx]]. destruct (Hitp x Hfl) as [p Ex]. subst x. rewrite Htf0.
+                apply (Hpr (VP p) Hshx). }
             unfold pair_whole in Hw. cbn [fst snd] in Hw. rewrite <- Hw in Hfv0. rename Hfv0 into Hfv. clear Hin Hxn Hw.
             unfold Fits.fits_elem in Hfv.
             destruct (v_tokens_factory var) as [tf|] eqn:Etf.
@@ -348,8 +370,8 @@ Section Tree.
                  fold (den (g_prim c u var y)). rewrite (den_prim var y Hsh).
                  destruct (IHl (fun z Hz => Hfl z (or_intror Hz))) as [E3 E4]. rewrite E3, E4. split; reflexivity.
               -- destruct x eqn:Ex; try (split; reflexivity).
-                 all: destruct (fits_item_simple c u ok _ var t _ Htys Hst Hfv) as [p0 [Ep Hp]]; try discriminate Ep.
-                 inversion Ep; subst. apply (Hpr (VP p0)). eapply es_leaf; exact Hp.
+                 all: destruct (Hit _ Hfv) as [_ [_ Hshx]]; destruct (Hitp _ Hfv) as [p0 Ep]; try discriminate Ep.
+                 inversion Ep; subst. apply (Hpr (VP p0) Hshx).
         - destruct (wf_text_inv var Hwt) as [Hwtk [Hwt0 [t [Htys Hwtd]]]].
           unfold g_items, e_items. rewrite Hwtk.
           assert (Hxe : x = field_of fs var).
